@@ -42,6 +42,9 @@ type Case struct {
 	Chunks []int   `json:"chunks,omitempty"`
 	Concat int     `json:"concat"`
 	FailAt int     `json:"failAt"` // write call at which the writer starts failing
+	// Deep: the geometry is also encoded and decoded at the bottom of this many nested
+	// collections (both formats express any depth).
+	Deep int `json:"deep,omitempty"`
 	// FlipMask: bit n set = the n-th geometry header (members at any depth) is written
 	// in the other byte order than its parent, for the decode direction: each
 	// geometry of an encoding carries its own byte-order mark.
@@ -91,8 +94,9 @@ func genCase(t *rapid.T) Case {
 		Reader:   rapid.SampledFrom([]string{"chunks", "onebyte", "half", "dataerr", "whole", "bufio", "bufio"}).Draw(t, "reader"),
 		Concat:   rapid.IntRange(1, 3).Draw(t, "concat"),
 		FailAt:   rapid.IntRange(0, 40).Draw(t, "failAt"),
-		FailHow:  rapid.IntRange(0, 2).Draw(t, "failHow"),
+		FailHow:  rapid.IntRange(0, 3).Draw(t, "failHow"),
 		FlipMask: rapid.Uint64().Draw(t, "flipMask"),
+		Deep:     rapid.SampledFrom([]int{0, 0, 0, 0, 0, 0, 0, 0, 0, 0, 0, 0, 0, 0, 0, 0, 0, 0, 0, 0, 0, 0, 0, 0, 0, 0, 0, 0, 0, 0, 5, 16, 31, 32, 33, 64, 65, 130}).Draw(t, "deep"),
 		Upper:    rapid.Bool().Draw(t, "upper"),
 		Poison:   rapid.IntRange(0, 3).Draw(t, "poison") == 0,
 	}
@@ -142,13 +146,18 @@ var errInjected = errors.New("injected writer failure")
 // failWriter accepts the first n Write calls and fails afterwards.
 type failWriter struct {
 	n        int
-	how      int // at the failing call: 0 = (0, err); 1 = half of the bytes and err; 2 = all of the bytes and err
+	how      int // at the failing call: 0 = (0, err); 1 = half of the bytes and err; 2 = all of the bytes and err; 3 = (0, err) once, later calls succeed
 	accepted bytes.Buffer
 	calls    int
 	failed   bool
 }
 
 func (w *failWriter) Write(p []byte) (int, error) {
+	if w.how == 3 && w.failed {
+		// transient failure: the one call failed, the stream works again afterwards
+		w.calls++
+		return len(p), nil
+	}
 	if w.calls >= w.n {
 		first := !w.failed
 		w.failed = true
@@ -396,6 +405,31 @@ func prop(c Case) error {
 			}
 		}
 	}
+	// the geometry at the bottom of a tower of nested collections
+	if c.Deep > 0 {
+		var top geom.T = t
+		gm := g.Clone()
+		ok := true
+		for i := 0; i < c.Deep && ok; i++ {
+			w := geom.NewGeometryCollection()
+			ok = w.Push(top) == nil
+			top = w
+			gm = &model.G{Kind: model.GeometryCollection, Members: []model.G{*gm}}
+		}
+		if wantD, _, err := refwkb.Encode(gm, c.XDR, refMode); ok && err == nil && !(c.Mode == "wkb-err" && refwkb.HasEmptyPoint(gm)) {
+			gotD, err := cd.marshal(top, bo)
+			if err != nil || !bytes.Equal(gotD, wantD) {
+				return fmt.Errorf("%s Marshal of %d nested collections: %v (%d bytes, reference %d)", c.Mode, c.Deep, err, len(gotD), len(wantD))
+			}
+			decD, err := cd.unmarshal(wantD)
+			if err != nil {
+				return fmt.Errorf("Unmarshal of %d nested collections: %v", c.Deep, err)
+			}
+			if err := sameModel(fmt.Sprintf("Unmarshal of %d nested collections", c.Deep), expected(gm, c.Mode, true), decD, true); err != nil {
+				return err
+			}
+		}
+	}
 	// (c) Write
 	var buf bytes.Buffer
 	if err := cd.write(&buf, bo, t); err != nil {
@@ -421,7 +455,7 @@ func prop(c Case) error {
 			return fmt.Errorf("Write to a healthy writer emitted % x, want % x", fw.accepted.Bytes(), want)
 		}
 	}
-	if !bytes.HasPrefix(want, fw.accepted.Bytes()) {
+	if c.FailHow != 3 && !bytes.HasPrefix(want, fw.accepted.Bytes()) {
 		return fmt.Errorf("bytes accepted before the failure (% x) are not a prefix of the encoding", fw.accepted.Bytes())
 	}
 	// (d) Read through a splitting reader; concatenated encodings
